@@ -65,7 +65,7 @@ def main():
                  "C09 compiled DenovoMCMC cache probe with 96 cases incl. overflow of the real 2**16-node cache (12 small cases already in quick), C09/C18 compiled pedigree-sampler probe against a cache-free twin with 400 cases (40 already in quick), "
                  "C08 real-multiprocessing fidelity probe and 24-batch hash-seed re-execution (12 batches already in quick). "
                  "Five genuine defects of MCHap are repaired by fix: commits in /repo (80c34e4 223b6e9 1d6f459 8c9a2b4 e747dde); one is a listed known finding (KF-C14-1, known_findings.json). "
-                 "seeded/ holds 144 independently written breaking changes with which the checks were tested (all 144 caught by the quick tier, 60 of them only after a strengthening: seeded/INDEX.md); sensitivity/ a catalogue of 37 source mutants (36 caught). "
+                 "seeded/ holds 144 independently written breaking changes with which the checks were tested (all 144 caught by the quick tier, 60 of them only after a strengthening: seeded/INDEX.md); sensitivity/ a catalogue of 38 source mutants (37 caught). "
                  "tools_soak.sh re-runs every check at many VERIF_SEED values.",
     }
     json.dump(doc, open(os.path.join(HERE, "MANIFEST.json"), "w"), indent=1)
